@@ -491,7 +491,8 @@ class Model:
 
     def system_members(self, s) -> set:
         out = set()
-        for g in self.systems[s]["using"]:
+        # "If the system has no group, it automatically uses the root group" (documented in the system header syntax)
+        for g in self.systems[s]["using"] or ["root"]:
             out |= self.group_members(g)
         return out
 
